@@ -582,6 +582,12 @@ def installVarStep (p : Nat)
   let lastTup := (zipOpt ((lv[v]?).join) ((lr[v]?).join)).map (fun x => (⟨x.1, x.2⟩ : PRel))
   (installVarWrite p c lastTup v relv, lv.set v (some p), lr.set v (some relv), acc.2.2.2 ++ [lastTup])
 
+/-- `last_node.next_p = Some(p)` or `self.p_ends = Some((p, p))` -/
+def installLinkLast (c : FastOps) (lastP : Option Nat) (p : Nat) : FastOps :=
+  match lastP with
+  | some lp => c.setNextP lp (some p)
+  | none => c.setPEnds (some (p, p))
+
 /-- one step of the fold in `clear_and_install_ops` -/
 def installStep (st : FastOps × Option Nat × List (Option Nat) × List (Option Nat)) (po : Nat × Op) :
     FastOps × Option Nat × List (Option Nat) × List (Option Nat) :=
@@ -589,9 +595,7 @@ def installStep (st : FastOps × Option Nat × List (Option Nat) × List (Option
   let lastP := st.2.1
   let p := po.1
   let op := po.2
-  let c1 := match lastP with
-    | some lp => c.setNextP lp (some p)
-    | none => c.setPEnds (some (p, p))
+  let c1 := installLinkLast c lastP p
   let r := op.vars.zipIdx.foldl (installVarStep p) (c1, st.2.2.1, st.2.2.2, [])
   let c2 := r.1
   let node : Node :=
@@ -599,20 +603,28 @@ def installStep (st : FastOps × Option Nat × List (Option Nat) × List (Option
       nextForVars := List.replicate op.vars.length none }
   ((c2.setOp p (some node)).setN (c2.n + 1), some p, r.2.1, r.2.2.1)
 
+/-- `self.ops.clear(); resize_with(opslen, None); self.var_ends … None; self.p_ends = None` -/
+def clearForInstall (c : FastOps) (opslen : Nat) : FastOps :=
+  { c with ops := List.replicate opslen none, varEnds := List.replicate c.varEnds.length none,
+           pEnds := none }
+
+/-- the two fix-ups after the fold: tail of `p_ends`, tails of `var_ends` -/
+def fixEndTails (c : FastOps) (lastP : Option Nat) (lv lr : List (Option Nat)) : FastOps :=
+  let c2 := c.setPEnds (c.pEnds.map (fun (he : Nat × Nat) => (he.1, lastP.getD 0)))
+  let fix : Option (PRel × PRel) × Option Nat × Option Nat → Option (PRel × PRel) := fun ev =>
+    match ev.1 with
+    | some (h, _) => some (h, ⟨ev.2.1.getD 0, ev.2.2.getD 0⟩)
+    | none => none
+  { c2 with varEnds := (c2.varEnds.zip (lv.zip lr)).map fix }
+
 /-- `clear_and_install_ops` (input must be strictly increasing in `p`, asserted by the Rust) -/
 def clearAndInstallOps (c : FastOps) (l : List (Nat × Op)) : FastOps :=
   if l.isEmpty then c else
   let nvars := c.varEnds.length
   let opslen := (l.map (·.1)).foldl max 0 + 1
-  let c0 : FastOps :=
-    { c with ops := List.replicate opslen none, varEnds := List.replicate nvars none, pEnds := none }
-  let r := l.foldl installStep (c0, none, List.replicate nvars none, List.replicate nvars none)
-  let c1 := r.1
-  let c2 := { c1 with pEnds := c1.pEnds.map (fun (he : Nat × Nat) => (he.1, r.2.1.getD 0)) }
-  { c2 with varEnds := (c2.varEnds.zip (r.2.2.1.zip r.2.2.2)).map (fun (ev : Option (PRel × PRel) × Option Nat × Option Nat) =>
-      match ev.1 with
-      | some (h, _) => some (h, ⟨ev.2.1.getD 0, ev.2.2.getD 0⟩)
-      | none => none) }
+  let r := l.foldl installStep
+    (c.clearForInstall opslen, none, List.replicate nvars none, List.replicate nvars none)
+  fixEndTails r.1 r.2.1 r.2.2.1 r.2.2.2
 
 /-- `FastOps::new_from_ops(nvars, ps_and_ops)` -/
 def newFromOps (nvars : Nat) (l : List (Nat × Op)) : FastOps :=
